@@ -221,6 +221,7 @@ _op = st.one_of(
     st.tuples(st.just('getitem'), _ku), st.tuples(st.just('getitem'), _ku),
     st.tuples(st.just('get'), _ku), st.tuples(st.just('del'), _ku), st.tuples(st.just('pop'), _ku),
     st.tuples(st.just('setdefault'), _ku, _v), st.tuples(st.just('update'), _k, _k, _v),
+    st.tuples(st.just('update_kw'), _k, _k, _v),
     st.tuples(st.just('clear')), st.tuples(st.just('copy')), st.tuples(st.just('popitem')),
     st.tuples(st.just('contains'), _ku), st.tuples(st.just('len')),
 ).map(list)
@@ -303,6 +304,10 @@ def apply_real(c, op):
         if name == 'update':
             c.update({K(op[1]): op[3], K(op[2]): op[3] + 10})
             return ('ok', None)
+        if name == 'update_kw':
+            # a positional source and keyword arguments in ONE call
+            c.update({K(op[1]): op[3]}, **{K(op[2]): op[3] + 10})
+            return ('ok', None)
         if name == 'bigupdate':
             n, src = op[1], op[2]
             if src == 'dict':
@@ -361,6 +366,10 @@ def apply_model(ref, op, observed):
             return ('ok', od.pop(K(op[1]), 'dflt'))
         if name == 'setdefault':
             return ('ok', ref.setdefault(K(op[1]), op[2]))
+        if name == 'update_kw':
+            ref.set(K(op[1]), op[3])
+            ref.set(K(op[2]), op[3] + 10)
+            return ('ok', None)
         if name == 'update':
             if op[1] == op[2]:
                 ref.set(K(op[1]), op[3] + 10)
@@ -631,7 +640,7 @@ def run(case):
     if base is None:
         return out
     steps = base['steps']
-    if steps == 0 and any(op[0] in ('set', 'getitem', 'get', 'del', 'pop', 'setdefault', 'update', 'clear', 'copy', 'popitem')
+    if steps == 0 and any(op[0] in ('set', 'getitem', 'get', 'del', 'pop', 'setdefault', 'update', 'update_kw', 'clear', 'copy', 'popitem')
                           for p in progs for op in p):
         raise HarnessError('no per-opcode trace events although the programs run Python-level cache methods')
     if steps == 0:
@@ -673,7 +682,7 @@ def run(case):
                 ks.add('*')
             else:
                 ks.add(op[1])
-                if op[0] == 'update':
+                if op[0] in ('update', 'update_kw'):
                     ks.add(op[2])
         keysets.append(ks)
     shared = any((a & b) or '*' in a or '*' in b for a, b in itertools.combinations(keysets, 2))
